@@ -48,6 +48,11 @@ def run(run):
     _r1_paths(run)
     _r2_builder(run)
     _r3_levels(run)
+    # the level recorded for a (sub-)tiling is the level its tiles are written at: a sub-image tiling must share the
+    # geometry of the mosaic it belongs to (decided by C08's geometry rule)
+    from . import C08 as c08
+    from . import common as _common
+    _common.delegate(run, "C17.R3", "C08", c08.geometry_premises, only_rules={"C08.R4"}, note="premise: TileLevels of a multi-image mosaic")
     _r4_emitters(run)
     _r5_fits_tiler(run)
 
